@@ -8,7 +8,8 @@ ids="$@"; [ -z "$ids" ] && ids=$(ls seeded)
 for id in $ids; do
   prop=${id%%-*}
   echo "=== $id" >> $LOG
-  if ! git -C /repo apply seeded/$id/patch.diff >> $LOG 2>&1; then echo "  APPLY-FAILED" >> $LOG; git -C /repo checkout -- .; continue; fi
+  if ! git -C /repo apply --3way /verif/seeded/$id/patch.diff >> $LOG 2>&1; then echo "  APPLY-FAILED" >> $LOG; git -C /repo checkout -- . ; git -C /repo reset -q --hard HEAD; continue; fi
+  git -C /repo reset -q
   ./check $prop $TIER 2>&1 | grep -E "^(OK|VIOLATION|TOOL-ERROR)" | head -2 | sed 's/^/  /' >> $LOG
   git -C /repo checkout -- .
   [ -n "$(git -C /repo status --short | grep -v '^??')" ] && echo "  WARNING: /repo not clean" >> $LOG
